@@ -71,6 +71,9 @@ func main() {
 		}
 	}
 	err := fn(e)
+	if err == nil {
+		err = runRandFor(e)
+	}
 	cleanup()
 	if *out != "" {
 		if werr := e.rep.Write(*out); werr != nil {
